@@ -16,7 +16,7 @@ The property (JSON):
 
 Requirements for each change:
 * It must look like a plausible maintenance edit or optimisation gone wrong (not sabotage that ordinary use would expose at once). It should need something SPECIFIC to manifest: a particular interleaving, a crash or fault at a particular point, a multi-step sequence of operations, an unusual input, or two cooperating sites that each look fine alone.
-* The code must still import/compile and the existing tests must still pass: run `cd /tmp/seed-{pid.lower()} && /venv/bin/python -m pytest -q -p no:cacheprovider --timeout=900 --continue-on-collection-errors test/unit 2>&1 | tail -5` once on the unmodified worktree to learn the baseline (about 491 pass; ~113 fail already offline for svn/cvs/jenkins/urlscm-extraction/pathspec reasons — those known failures do not count) and again with each change: no test that passed before may fail.
+* The code must still import/compile and the existing tests must still pass: run `cd /tmp/seed-{pid.lower()} && PYTHONPATH=/tmp/seed-{pid.lower()}/pym /venv/bin/python -m pytest -n 4 -q -p no:cacheprovider --timeout=900 --continue-on-collection-errors test/unit 2>&1 | tail -5` (the PYTHONPATH is essential: without it pytest imports Bob from /repo, not from your worktree) once on the unmodified worktree to learn the baseline (about 491 pass; ~113 fail already offline for svn/cvs/jenkins/urlscm-extraction/pathspec reasons — those known failures do not count) and again with each change: no test that passed before may fail.
 * Provide a demonstration: a self-contained Python program `demo.py` (run as `PYTHONPATH=<bobroot>/pym /venv/bin/python demo.py`, where it takes the Bob root from the environment variable BOB_ROOT, default /repo) that exits 0 on the unmodified code and exits non-zero (printing what went wrong) with your change applied. It must exercise Bob's real code, create any scratch data under a fresh tempfile.mkdtemp() and clean up after itself.
 * The {n} changes must differ in mechanism (different functions / different clauses of the property).
 
